@@ -247,6 +247,60 @@ Proof.
   eapply ssorted_map_nodup; eauto.
 Qed.
 
+
+(* ------------------------------------------------------------------ board rows: the lookups of the decoded views succeed *)
+Lemma find_idx_none {A} (f : A -> bool) l : forall i, Names.find_idx f l i = None -> forall x, In x l -> f x = false.
+Proof.
+  induction l as [|a t IH]; cbn [Names.find_idx]; intros i H x I; [destruct I|].
+  destruct (f a) eqn:Fa; [discriminate|]. destruct I as [<-|I]; [exact Fa|eapply IH; eauto].
+Qed.
+Lemma a16_row_found mac : Adc.mac_known adc_macs mac = true -> exists r, a16_row_of_mac mac = Some r.
+Proof.
+  unfold Adc.mac_known, adc_macs. intros H. apply existsb_exists in H as (x & I & E).
+  apply Adc_proofs.list_eqb_eq in E. subst x. apply in_map_iff in I as (p & E & I).
+  unfold a16_row_of_mac. destruct (Names.find_idx _ alpha16_boards 0) as [r|] eqn:Q; [eauto|].
+  pose proof (find_idx_none _ _ _ Q p I) as C. cbn in C. rewrite E in C.
+  rewrite (proj2 (Maps_proofs.list_eqb_eq mac mac) eq_refl) in C. discriminate.
+Qed.
+Lemma pwb_row_of_mac_found mac : Adc.mac_known pwb_macs mac = true -> exists r, pwb_row_of_mac mac = Some r.
+Proof.
+  unfold Adc.mac_known, pwb_macs. intros H. apply existsb_exists in H as (x & I & E).
+  apply Adc_proofs.list_eqb_eq in E. subst x. apply in_map_iff in I as (p & E & I).
+  unfold pwb_row_of_mac. destruct (Names.find_idx _ padwing_boards 0) as [r|] eqn:Q; [eauto|].
+  pose proof (find_idx_none _ _ _ Q p I) as C. cbn in C. rewrite E in C.
+  rewrite (proj2 (Maps_proofs.list_eqb_eq mac mac) eq_refl) in C. discriminate.
+Qed.
+Lemma pwb_row_of_dev_found dev : Chunk.dev_known pwb_devices dev = true -> exists r, pwb_row_of_dev dev = Some r.
+Proof.
+  unfold Chunk.dev_known, pwb_devices. intros H. apply existsb_exists in H as (x & I & E).
+  apply N.eqb_eq in E. subst x. apply in_map_iff in I as (p & E & I).
+  unfold pwb_row_of_dev. destruct (Names.find_idx _ padwing_boards 0) as [r|] eqn:Q; [eauto|].
+  pose proof (find_idx_none _ _ _ Q p I) as C. cbn in C. rewrite E, N.eqb_refl in C. discriminate.
+Qed.
+(* a long ADC packet always shows its board (so `unwrap_or(bank name's board)` only applies to the 16-byte form),
+   a chunk and a reassembled packet always have a board row *)
+Theorem e2e_board_rows_found m :
+  (forall d f lg, bytes d -> Adc.adc_decode adc_macs m d = Ok f -> Adc.a_long f = Some lg ->
+     exists r, a_board (adcv_of f) = Some r) /\
+  (forall d c, bytes d -> Chunk.chunk_decode pwb_devices m d = Ok c -> exists r, pwb_row_of_dev (Chunk.c_dev c) = Some r) /\
+  (forall cs p, reasm_e2e m cs = DOk p -> p_board p <> no_row).
+Proof.
+  split; [|split].
+  - intros d f lg Hb E L. apply (Adc_proofs.adc_exact_lemma adc_macs m d f Hb) in E.
+    destruct E as [(_ & _ & _ & _ & _ & _ & HL) _]. rewrite L in HL. destruct HL as (_ & K & _).
+    unfold adcv_of; cbn [a_board]. rewrite L. apply a16_row_found. exact K.
+  - intros d c Hb E. apply (Reasm_proofs.decoded_chunk_ok pwb_devices m d c Hb) in E. destruct E as (K & _).
+    apply pwb_row_of_dev_found. exact K.
+  - intros cs p H. apply reasm_e2e_ok in H as (ks & f & _ & _ & -> & Hok).
+    destruct Hok as (_ & _ & K & _). destruct (pwb_row_of_mac_found _ K) as (r & E).
+    unfold pwbv_of; cbn [p_board]. rewrite E. cbn [row_or_none].
+    unfold pwb_row_of_mac in E. intros C. subst r.
+    assert (B : forall {A} (f : A -> bool) l i r, Names.find_idx f l i = Some r -> r < i + lenN l).
+    { intros A g l. induction l as [|a t IH]; cbn [Names.find_idx]; intros i r Q; [discriminate|].
+      destruct (g a); [inv Q; rewrite lenN_cons; lia|]. apply IH in Q. rewrite lenN_cons. lia. }
+    apply B in E. unfold no_row in E. lia.
+Qed.
+
 (* ------------------------------------------------------------------ (a) the typing hypotheses are discharged *)
 Theorem e2e_env_typed_m m run : env_typed (env_e2e_m m run).
 Proof.
